@@ -601,12 +601,20 @@ def run(tier, replay=None):
     from vf.checks import c02
     fxres = c02.check_fx(chk, b, cases, amap, lres, replay)
     found = found or fxres.get("found", False)
+
+    def excuse(line, kind, err):
+        toks = dict(t.split("=", 1) for t in line.split()[1:] if "=" in t)
+        if kind == "crash":
+            return "C03-continue-killed-fiber" in kf and "yr_re_exec: Assertion" in err and killed_fiber_sig(toks.get("re", ""))
+        return "C03-nullable-repeat" in kf and nullable_repeat(toks.get("re", ""))
+    wres, wfound = rc.check_wfx(core, chk, b, cases, excuse) if lres.get("driver_ok") else ({}, False)
+    found = found or wfound
     chk.cov.update({
         "evaluations": len(cases), "distinct_nontrivial": len(distinct),
         "rule": "generated regex (<=12 AST nodes) x buffer (<=200 bytes) built from sampled instances / mutations; non-trivial = the specification admits at least one match "
                 "in the buffer (strings) or any verdict (matches operator); distinct (regex, modifiers, buffer)",
         "histogram": hist, "violating_cases": nviol, "known_finding_cases": {k: len(v) for k, v in known_hits.items()},
-        "traces_validated_against_impl": len(cases) - nviol, "fx": fxres.get("cov"),
+        "traces_validated_against_impl": len(cases) - nviol, "fx": fxres.get("cov"), "wfx": wres,
         "samples": [{"meta": metas.get(c.split(" ", 1)[0]), "implementation": imap.get(c.split(" ", 1)[0], "")[:300], "model": mmap.get(c.split(" ", 1)[0], "")[:300]}
                     for c in cases[len(CORPUS):len(CORPUS) + 2]],
     })
